@@ -1,3 +1,4 @@
+import DarkluaModel.Shared.Driver
 import DarkluaModel.C01.Driver
 import DarkluaModel.C02.Driver
 import DarkluaModel.C03.Driver
@@ -52,6 +53,7 @@ def dispatch (line : String) : String :=
       | "c18" => C18.handle op args
       | "c19" => C19.handle op args
       | "c20" => C20.handle op args
+      | "sem" => Shared.handle op args
       | "ping" => "pong"
       | _ => "unknown-prop " ++ prop
     | _ => if head == "ping" then "pong" else "bad-request"
